@@ -148,6 +148,7 @@ def configure(env):
     g['NC'] = int(env.get('C01K3_NC', '2'))
     g['SYMS'] = tuple(env.get('C01K3_SYMS', 'A,C,-').split(','))
     g['DTYPE'] = env.get('C01K3_DTYPE', 'nucleotide')  # nucleotide | aminoacid | codon (genetic code CODE)
+    g['IXMIN'] = int(env.get('C01K3_IXMIN', '0'))
     g['IXMAX'] = int(env.get('C01K3_IXMAX', '0'))
     g['C0'] = int(env.get('C01K3_C0', '-1'))  # case split over the first column (parallelism), -1 = free
     g['PERM'] = int(env.get('C01K3_PERM', '-1'))  # case split over the hand-over order, -1 = free
@@ -613,7 +614,7 @@ def _cmp(c0, c1, c2, ncols, perm, ix):
 
 def _adom(c0, c1, c2, ncols, perm, ix):
     m = len(COL_BOX)
-    if not (1 <= ncols <= NC and 0 <= perm < len(PERMS) and 0 <= ix <= IXMAX):
+    if not (1 <= ncols <= NC and 0 <= perm < len(PERMS) and IXMIN <= ix <= IXMAX):
         return False
     if (C0 >= 0 and c0 != C0) or (PERM >= 0 and perm != PERM):
         return False
